@@ -42,7 +42,7 @@ def handle (op : String) (args : List String) : Option String :=
       pure (match parseInt s bits with | some n => s!"ok {n}" | none => "err")
   | "formatint", [n] => do
       let n ← n.toInt?
-      pure (hexOf (formatInt n))
+      pure ("ok " ++ hexOf (formatInt n))
   | "int.bin", [order, k, n] => do
       let k ← k.toNat?
       let n ← n.toInt?
